@@ -55,7 +55,10 @@ class Backfilling(TMGRSchedulingComponent):
         # pilots just got added.  If we did not have any pilot before, we might
         # have tasks in the wait queue waiting -- now is a good time to take
         # care of those!
-        with self._wait_lock:
+        # NOTE: all other code paths take the pilots lock first and then the
+        #       wait lock - use the same order here, otherwise this thread and
+        #       the work or state update thread can lock each other out
+        with self._pilots_lock, self._wait_lock:
 
             # initialize custom data for the pilot
             for pid in pids:
